@@ -63,6 +63,10 @@ CTX = {
         "template-nested": (["function f(q) {{", "  return `a ${{q > {t} ? `big` : `small`}} b`;", "}}"], None),
         "object-value": (["function f(q) {{", "  return {{ size: {t} }};", "}}"], None),
         "ternary": (["function f(q) {{", "  return q ? {t} : q;", "}}"], None),
+        # the NAME being defined decides the constant exemption, not an UPPER_CASE name used in the value or as a computed key
+        "object-string-key-const-operand": (["function f(q) {{", "  return {{ \"size\": LIMIT_K + {t} }};", "}}"], None),
+        "object-computed-key": (["function f(q) {{", "  return {{ [KEY_A]: {t} }};", "}}"], None),
+        "lower-assign-const-operand": (["function f(q) {{", "  const total = LIMIT_K * {t};", "  return total;", "}}"], None),
     },
     "rust": {
         "binop": (["fn f(q: i64) -> i64 {{", "    let y = q * {t};", "    y", "}}"], None),
